@@ -1,7 +1,7 @@
 (* C02  Only authentic packets are accepted; altered packets change nothing.
    Statements only; proofs are in proofs/PacketNumberProofs.v and proofs/ProtectProofs.v. *)
 From AQ Require Import lib.Base model.PacketNumber model.Protect gen.PnGen proofs.PacketNumberProofs proofs.ProtectProofs
-  model.KeyPhase proofs.KeyPhaseProofs gen.C02Keys model.KeyDerive proofs.KeyDeriveProofs model.KeyPhaseSec proofs.KeyPhaseSecProofs.
+  model.KeyPhase proofs.KeyPhaseProofs gen.C02Keys model.KeyDerive proofs.KeyDeriveProofs model.KeyPhaseSec proofs.KeyPhaseSecProofs model.PacketRecv proofs.PacketRecvProofs.
 
 (* the current source of decode_packet_number (translated by tools/gen/c02_pure.py) is the model *)
 Theorem gen_source_is_model : forall t b e, gen_decode_packet_number t b e = decode_packet_number t b e.
@@ -269,3 +269,42 @@ Theorem genuine_packet_verdict_secrets : forall hmac cs version s0 a, chain_prem
         sc_secret (sp_recv y') = sec hmac cs version s0 x g /\ upd = negb (g =? gen (ep s (negb x))))).
 Proof. exact genuine_packet_verdict_secrets_closed. Qed.
 Print Assumptions genuine_packet_verdict_secrets.
+
+(* ---- receive_datagram's decisions around decryption (model/PacketRecv.v; model only, see docs/C02.md) ---- *)
+
+(* a packet that is not an unmodified sealing (altered in any bit, forged, sealed under other keys), of any type, with either
+   key phase bit, any claimed packet number and content, for whose epoch the receiver has keys, leaves EVERY modelled field of the
+   connection unchanged: key-phase state, packet spaces (expected / largest packet number, ack queue, ack timer), connection
+   and close state, idle timer, delivered payloads, retransmission flag *)
+Theorem unauthentic_packet_no_effect_conn : forall frames idle_timeout ack_delay c r now,
+  has_keys c (r_epoch r) = true -> q_auth (r_q r) = None -> recv_packet frames idle_timeout ack_delay c r now = c.
+Proof. exact unauthentic_packet_no_effect_conn_lemma. Qed.
+Print Assumptions unauthentic_packet_no_effect_conn.
+
+(* no later effect: from any sequence of received packets the unauthentic ones can be deleted without changing the final state *)
+Theorem unauthentic_packets_no_later_effect_conn : forall frames idle_timeout ack_delay rs c,
+  recv_all frames idle_timeout ack_delay c rs =
+  recv_all frames idle_timeout ack_delay c
+    (filter (fun rn => negb (has_keys c (r_epoch (fst rn)) && match q_auth (r_q (fst rn)) with None => true | Some _ => false end)) rs).
+Proof. exact unauthentic_packets_no_later_effect_lemma. Qed.
+Print Assumptions unauthentic_packets_no_later_effect_conn.
+
+(* no keys for the epoch: dropped; the only possible change is the client's one-shot Initial retransmission (RFC 9002 6.2.3) *)
+Theorem key_unavailable_packet_effect : forall frames idle_timeout ack_delay c r now, has_keys c (r_epoch r) = false ->
+  recv_packet frames idle_timeout ack_delay c r now = c \/
+  (c_is_client c = true /\ c_crypto_retransmitted c = false /\ (r_epoch r = EHandshake \/ r_epoch r = EOneRtt) /\
+   recv_packet frames idle_timeout ack_delay c r now =
+     mkC (c_is_client c) (c_keys_initial c) (c_keys_handshake c) (c_keys_onertt c) (c_pair c) (c_sp_initial c) (c_sp_handshake c)
+       (c_sp_onertt c) true (c_rescheduled c + 1) (c_connected c) (c_close c) (c_close_at c) (c_delivered c)).
+Proof. exact key_unavailable_effect. Qed.
+Print Assumptions key_unavailable_packet_effect.
+
+(* the reserved bits are examined only after the packet has authenticated: PROTOCOL_VIOLATION, nothing delivered, no packet number
+   recorded, idle timer untouched -- a remote key update has already been applied *)
+Theorem reserved_bits_checked_after_decrypt_conn : forall frames idle_timeout ack_delay c r now p',
+  decrypt c r = Opened p' -> Z.land (r_first r) (if epoch_eqb (r_epoch r) EOneRtt then 24 else 12) <> 0 ->
+  let c' := recv_packet frames idle_timeout ack_delay c r now in
+  c_close c' = Some PROTOCOL_VIOLATION /\ c_delivered c' = c_delivered c /\ c_pair c' = p' /\
+  c_sp_initial c' = c_sp_initial c /\ c_sp_handshake c' = c_sp_handshake c /\ c_sp_onertt c' = c_sp_onertt c /\ c_close_at c' = c_close_at c.
+Proof. exact reserved_bits_checked_after_decrypt. Qed.
+Print Assumptions reserved_bits_checked_after_decrypt_conn.
